@@ -332,7 +332,7 @@ struct ZoneEngine : Engine {
 		size_t nops = (size_t)(r.chance(1, 5) ? r.range(1, 6) : r.range(10, cfg.tier == "thorough" ? 300 : 200));
 		add_ops(r, m, p, nops);
 		if (r.chance(1, 5) && cfg.iopt("tool", 1))
-			p.par["tool"] = std::to_string(1 + r.below(4));
+			p.par["tool"] = std::to_string(1 + r.below(5));
 		return p;
 	}
 
@@ -747,6 +747,29 @@ struct ZoneEngine : Engine {
 			}
 			if (q.argv.size() == 7)
 				return v;
+		} else if (mode == 5) {
+			/* the same image under 24 to 40 names in one dzone run, in a process that may hold 16 descriptors:
+			 * a zone that has been loaded needs none */
+			size_t ncopies = 24 + (size_t)(p.hash() % 17);
+			std::string img;
+			for (auto &f : q.files)
+				if (f.path == zpath)
+					img = f.data;
+			q.argv = {"dzone"};
+			int64_t t = ts[0];
+			int32_t off = m.off_at(t);
+			for (size_t i = 0; i < ncopies; i++) {
+				char nm[32];
+				snprintf(nm, sizeof(nm), "/sim/zi/c%03zu", i);
+				SimFile f;
+				f.path = nm;
+				f.data = img;
+				q.files.push_back(f);
+				q.argv.push_back(nm);
+				expect += model::fmt_iso(t + off) + zstr(off) + "\t" + nm + "\n";
+			}
+			q.argv.push_back(model::fmt_iso(t));
+			q.par["nofile"] = "16";
 		} else {
 			int64_t t = ts[0];
 			/* every other plan asks inside the first range of the table: the previous transition is entry 0 */
@@ -801,7 +824,7 @@ struct ZoneEngine : Engine {
 					return v;
 		}
 		/* the same values as arguments, as plain stdin lines, in sed mode or in empty mode: four reader paths */
-		if (mode != 3) {
+		if (mode != 3 && mode != 5) {
 			unsigned delivery = (unsigned)((p.hash() >> 11) % 4);
 			size_t nfix = mode == 4 ? 7 : 5;
 			if (delivery && q.argv.size() > nfix) {
@@ -832,7 +855,7 @@ struct ZoneEngine : Engine {
 		RunResult r = run_plan(q);
 		st.add_probes(r);
 		if (collect)
-			st.named[mode == 1 ? "tool_dconv_zone" : mode == 2 ? "tool_dconv_from_zone" : mode == 4 ? "tool_dconv_from_zone_to_zone" : "tool_dzone_next_prev"]++;
+			st.named[mode == 1 ? "tool_dconv_zone" : mode == 2 ? "tool_dconv_from_zone" : mode == 4 ? "tool_dconv_from_zone_to_zone" : mode == 5 ? "tool_dzone_many_zones_few_descriptors" : "tool_dzone_next_prev"]++;
 		std::string cmd;
 		for (auto &a : q.argv)
 			cmd += a + " ";
